@@ -35,6 +35,7 @@ const (
 	vpTtlAfterExp    = 25 // GetTTL: after storedItems.Expiration, before the clock check
 	vpTtlAfterNow    = 26 // GetTTL: after the clock check, before time.Until
 	vpSetAfterClock  = 27 // SetWithTTL: after the expiration was computed, before storedItems.Update
+	vpClearShard     = 28 // shardedMap.Clear: one shard has been cleared (observe: shard index)
 	// applier (cache.go processItems)
 	vpAppItem        = 30 // select: item received (observe: flag, key)
 	vpAppMarker      = 31 // marker closed
